@@ -148,6 +148,8 @@ class FakeSocket(object):
     def recv(self, n):
         ln = self.line
         ln.ops += 1
+        if n < 0:
+            raise ValueError('negative buffersize in recv')        # as a real socket does
         if ln.read_fault == 'oserror':
             ln.read_fault = None
             raise OSError('connection reset by peer (injected)')
